@@ -526,14 +526,55 @@ func (ex *Exec) lookup(fr *Frame, ins *ssa.Lookup) Value {
 	m := x.(*MapObj)
 	key := ex.val(fr, ins.Index)
 	ex.checkHashable(fr, key, ins.Pos())
+	zero := ex.zero(ins.X.Type().Underlying().(*types.Map).Elem())
+	if m != nil {
+		// symbolic key equalities: do not fork here; the value is resolved lazily when (if) it is used, so that
+		// presence-only lookups (`_, ok := m[k]`) stay fork-free
+		conds := make([]*Term, len(m.entries))
+		symbolic := false
+		for i, e := range m.entries {
+			conds[i] = ex.keyEq(e.key, key, m.typ.Key())
+			if !conds[i].conc {
+				symbolic = true
+			}
+		}
+		if symbolic {
+			lz := &LazyV{conds: conds, zero: zero}
+			ok := termFalse
+			for i, e := range m.entries {
+				lz.vals = append(lz.vals, e.val)
+				ok = tOr(ok, conds[i])
+			}
+			if ins.CommaOk {
+				return TupleV{lz, ok}
+			}
+			return lz
+		}
+	}
 	v, ok := ex.mapGet(fr, m, key)
 	if !ok {
-		v = ex.zero(ins.X.Type().Underlying().(*types.Map).Elem())
+		v = zero
 	}
 	if ins.CommaOk {
 		return TupleV{v, boolConst(ok)}
 	}
 	return v
+}
+
+// LazyV is the not-yet-resolved result of a map lookup with a symbolic key.
+type LazyV struct {
+	conds []*Term
+	vals  []Value
+	zero  Value
+}
+
+func (ex *Exec) force(lz *LazyV) Value {
+	for i, c := range lz.conds {
+		if ex.decide(c) {
+			return lz.vals[i]
+		}
+	}
+	return lz.zero
 }
 
 func (ex *Exec) rangeIter(fr *Frame, x Value, t types.Type) Value {
